@@ -93,23 +93,29 @@ Section Model.
   (* loop state of `compress`: (compressed, reversed; cumulative_weight; current) *)
   Definition cstate : Type := (list (T * T) * T * (T * T))%type.
 
-  Definition compress_step (c total : T) (st : cstate) (cen : T * T) : cstate :=
+  Definition compress_step (c total dmin dmax : T) (st : cstate) (cen : T * T) : cstate :=
     let '(comp, cum, cur) := st in
     let proposed := snd cur +! snd cen in
     let q0 := cum /! total in
     let q1 := (cum +! proposed) /! total in
     let k_limit := a_min A (k_size c q0) (k_size c q1) in
     if a_leb A proposed k_limit then
-      (comp, cum, (a_fma A (fst cur) (snd cur) (fst cen *! snd cen) /! proposed, proposed))
+      let merged := a_fma A (fst cur) (snd cur) (fst cen *! snd cen) /! proposed in
+      let mean :=
+        if a_is_finite A merged then merged
+        else
+          (* the weighted sum overflowed (values near f64::MAX): convex combination, clamped *)
+          clamp (fst cur *! (snd cur /! proposed) +! fst cen *! (snd cen /! proposed)) dmin dmax in
+      (comp, cum, (mean, proposed))
     else
       (cur :: comp, cum +! snd cur, cen).
 
   (* the centroid list after TDigest::compress *)
-  Definition compress_cents (c total : T) (cents : list (T * T)) : list (T * T) :=
+  Definition compress_cents (c total dmin dmax : T) (cents : list (T * T)) : list (T * T) :=
     match sort_c cents with
     | [] => []
     | first :: rest =>
-        let '(comp, _, cur) := fold_left (compress_step c total) rest ([], a_zero A, first) in
+        let '(comp, _, cur) := fold_left (compress_step c total dmin dmax) rest ([], a_zero A, first) in
         rev (cur :: comp)
     end.
 
@@ -117,7 +123,7 @@ Section Model.
   Definition td_compress (d : digest T) : digest T :=
     match d_cents d with
     | [] => d
-    | _ => {| d_comp := d_comp d; d_cents := compress_cents (d_comp d) (d_total d) (d_cents d);
+    | _ => {| d_comp := d_comp d; d_cents := compress_cents (d_comp d) (d_total d) (d_min d) (d_max d) (d_cents d);
               d_total := d_total d; d_min := d_min d; d_max := d_max d |}
     end.
 
@@ -154,8 +160,12 @@ Section Model.
           else
             let fraction := (target -! cum) /! w in
             let right := match rest with [] => dmax | (m', _) :: _ => m' end in
+            let span := right -! left in
+            let estimate :=
+              if a_is_finite A span then left +! fraction *! span
+              else left *! (a_one A -! fraction) +! right *! fraction in   (* span overflowed *)
             (* .clamp(self.min, self.max): rounding must not leave the observed range *)
-            clamp (left +! fraction *! (right -! left)) dmin dmax
+            clamp estimate dmin dmax
         else q_loop dmin dmax m rest next target
     end.
 
@@ -228,7 +238,11 @@ Inductive X : Type := Fin (q : Q) | PInf | NInf | NaN.
 (* Finite operands: exact rational arithmetic. A non-finite operand of + - * / fma yields NaN
    (a simplification of IEEE that no theorem depends on: under the invariants every operand
    of these operations is finite, except a user-supplied q that is NaN or infinite, which clamp
-   and the comparisons treat as IEEE does). x / 0 is NaN. *)
+   and the comparisons treat as IEEE does). x / 0 is NaN.
+   The two overflow fallbacks of the code (compress: `merged.is_finite()`, quantile:
+   `span.is_finite()`, commit 731af2a) are dead code in this instance: `xfinite (Fin _) = true` and
+   under the digest invariant every operand is `Fin` (Proofs/TDigestCompress.v, TDigestQuantile.v
+   take the first branch by computation). *)
 Definition xlift2 (f : Q -> Q -> Q) (a b : X) : X :=
   match a, b with Fin x, Fin y => Fin (f x y) | _, _ => NaN end.
 Definition xdiv (a b : X) : X :=
